@@ -260,9 +260,9 @@ def jobs(tier, seed):
                 continue
             size = W**m * 4**m
             if tier == "quick" and m == 3 and W == 5:
-                b = seed % 4
-                lo, hi = size * b // 4, size * (b + 1) // 4
-                js.append(Job(f"bp_W5_m3_block{b}of4", hi - lo, _cs_block, (W, m, ("solve_bp",), 4, lo), chunk=max(1, (hi - lo) // 256), describe="solve_bp: rotating quarter (VERIF_SEED) of the W=5, three-size instances"))
+                b = seed % 8
+                lo, hi = size * b // 8, size * (b + 1) // 8
+                js.append(Job(f"bp_W5_m3_block{b}of8", hi - lo, _cs_block, (W, m, ("solve_bp",), 4, lo), chunk=max(1, (hi - lo) // 256), describe="solve_bp: rotating eighth (VERIF_SEED) of the W=5, three-size instances (0.2 s per instance)"))
                 continue
             js.append(Job(f"bp_W{W}_m{m}", size, _cs_chunk, (W, m, ("solve_bp",)), chunk=max(1, size // 256), describe="solve_bp: all size tuples in 1..W, demands 0..3"))
     # limit parameters: max_iter 0/1/2, early stop through on_progress, max_nodes: a plan returned before column
